@@ -127,7 +127,7 @@ func cmdRun(args []string) int {
 		base := filepath.Base(path)
 		rel, _ := filepath.Rel(*repo, filepath.Dir(path))
 		switch {
-		case strings.Contains(path, "/internal/zzverif/"), strings.Contains(path, "/internal/zzspv/"):
+		case strings.Contains(path, "/internal/zzverif/"), strings.Contains(path, "/internal/zzspv/"), strings.Contains(path, "/internal/zzclike/"):
 			overlay[path] = b
 		case strings.HasPrefix(base, pfx):
 			overlay[path] = b
